@@ -152,6 +152,23 @@ class FakeCircuit(Host):
     def has_gate(self, label):
         return label in self._gates
 
+    def get_gate_users(self, label):
+        return list(self._gate_to_users.get(label, []))
+
+    def remove_gate(self, label):
+        """Documented behaviour: refuses a gate with users; the gate leaves the gate map, the outputs and the index."""
+        self._need([label])
+        if self._gate_to_users.get(label):
+            raise InterpRaise('GateHasUsersError')
+        for o in self._gates[label].operands:
+            if label in self._gate_to_users.get(o, []):
+                self._gate_to_users[o].remove(label)
+        del self._gates[label]
+        self._outputs = [o for o in self._outputs if o != label]
+        self._inputs = [o for o in self._inputs if o != label]
+        self.log.append(('remove_gate', label))
+        return self
+
     def _remove_user(self, gate_label, user):
         self.log.append(('remove_user', gate_label, user))
         if user in self._gate_to_users.get(gate_label, []):
@@ -229,9 +246,11 @@ def run_converter(repo, den: Denotations, hmod, hname, tname, operands):
     c = FakeCircuit(types['INPUT'])
     for lab in ('in0', 'x', 'y'):
         c.emplace_gate(lab, types['INPUT'])
+    c.emplace_gate('h', types['AND'], ('x', 'y'))   # an inner gate that may serve as operand; it is an output itself
     c.emplace_gate('g', types[tname], tuple(operands))
     c.emplace_gate('user', types['IFF'], ('g',))
-    c._outputs = ['user']
+    c._outputs = ['user', 'h']
+    c._blocks['has_h'] = FakeBlock('has_h', ['x', 'y'], ['h'], ['h'])
     c._blocks['has_g'] = FakeBlock('has_g', list(dict.fromkeys(operands)), ['g'], ['g'])
     c._blocks['other'] = FakeBlock('other', ['g'], ['user'], ['user'])
     c._blocks['also_g'] = FakeBlock('also_g', list(dict.fromkeys(operands)), ['g', 'user'], ['user'])
